@@ -214,7 +214,11 @@ CLAIMED = {
               "4x4 system on which it returns a vector, hence the step the iteration takes is the exact Newton step J x = g whenever "
               "the factorisation succeeds; it is proved to succeed, and then to solve, on every symmetric positive definite 4x4 matrix "
               "(completing the squares with the partial factor: each pivot is the value of the quadratic form on an explicit vector); "
-              "that the Jacobian itself is positive definite and not only semidefinite is not proved. "
+              "the constraint Jacobian is proved positive definite for every multiplier vector on every uniform grid with N >= 5 "
+              "(x.T(theta) is not constant on five or more equally spaced directions unless x = 0: discrete Parseval; a variance under "
+              "positive weights vanishes only for constants), so the model's own solver cholSolve4 never fails there and satisfies the "
+              "exact-solver hypothesis: newton_rotates_cholesky / newton_mirrors_cholesky state the rotation and mirror equivariance of "
+              "the whole modelled iteration (damped Newton, line search, Cholesky solve) with no hypothesis on the solver. "
               "Correspondence as C05; fidelity of Newton / scipy / MEM on "
               "von-Mises mixtures with spread >= 1.5 bins (N in 24,36,72,144), Newton-vs-scipy agreement, rotation by every k "
               "and mirror equivariance of all four variants, finite-difference Jacobian, on the implementation."),
